@@ -24,6 +24,7 @@ META = {
                     "rejection loops bounded by a logical draw budget; exceeding it with natural draws is skipped (inconclusive for that case)"],
     "deciding": ["trace:placement", "trace:count-conservation", "trace:quantile", "determinism:seeded-rerun"],
 }
+META["added"] = 'Added: hostile legal-draw schedules, primitives on arrays up to 2000 bins, Fortran / transposed / strided tables and re-scaled forecasts, injected draws exactly on the lower cumulative boundary of distinct cells (0.0 for the first positive cell) for the binary and Brier simulators, weights bound (4(k+1)+2n) eps.'
 MANIFEST = {
     "technique": "RNG boundary log + hostile legal-draw injection + simulator boundary log, offline inverse-CDF trace checker with exact comparisons; seeded re-run determinism with scrambled global RNG state",
     "level_text": "Every simulator call made by the 7 gridded tests on generated inputs is recorded (weights, draws, returned counts) and re-derived offline by exact comparison; hostile legal draws (0, every cumulative boundary +-1ulp, largest double below 1) are injected through the RNG boundary and through random_numbers=; count conservation, zero-rate exclusion, quantile identity and seed determinism (incl. seed 0, after scrambling the global RNG) are decided on the trace.",
